@@ -87,6 +87,7 @@ GENERATORS = ["C08", "C09", "C12", "C14", "C15", "C16", "C01", "NAT"]
 # wrong type, too many, too few); whatever each call does - a value or an error - it must do in every build alike
 NAT_RECEIVERS = ['""', '"a"', '"abc"', '"héllo"', '"a,b,,c"', '"12.5"', "[]", "[1, 2, 3]", '[[1], "x", nil]', "()", "(1, 2, 3)", '(1, ("a", [2]))',
                  "{}", '{1: "a", "k": [2], (1, 2): 3}', "0..3", "2..2", "5..1", "-2..2", "7", "nil", "true", "1.5"]
+NAT_RECEIVERS += ['"%s€uro"' % ("a" * n_) for n_ in (15, 31, 47, 63, 79, 127, 255)] + ['"%sé"' % ("9" * n_) for n_ in (31, 47, 63)]
 NAT_METHODS = ["len", "iter", "is_alpha", "is_digit", "is_hexdigit", "count_chars", "char_byte_index", "find", "replace", "split",
                "starts_with", "ends_with", "to_num", "to_bytes", "to_code_points", "push", "pop", "has_key", "get", "insert", "remove",
                "clear", "keys", "values", "items", "next", "map", "filter", "collect", "derives"]
@@ -142,7 +143,7 @@ def generated(seed, idx):
         sc = c12.PROP.generate(derive(seed, "C10-C12"), sub, "quick")
         return fam, [{"programs": [{"kind": "snippet", "source": c12.render(sc["ir"])}], "tape": [], "faults": {}}]
     if fam == "C14":
-        sc = c14.PROP.generate(derive(seed, "C10-C14"), sub + 2, "quick")      # (indices 0 and 1 are C14's two fixed host-side cases)
+        sc = c14.PROP.generate(derive(seed, "C10-C14"), sub + 3, "quick")      # (indices 0-2 are C14's fixed host-side cases)
         return fam, [{"programs": [{"kind": "snippet", "source": c14.render(sc["ir"])}], "tape": sc["tape"], "faults": sc["faults"],
                       "fs": c14.fs_of(sc["ir"])}]
     if fam == "C15":
